@@ -115,7 +115,9 @@ def leaf_values(mod, t, big=False):
         return vals + adds
     if k == 'REAL':
         return [0.0, -0.0, math.inf, -math.inf, math.nan, 1.0, -1.0, 0.5, 2.0 ** 1023, 2.0 ** -1022, 5e-324, 1.7976931348623157e308,
-                1.0 + 2.0 ** -52, 3.0, 1e10, -123.456]
+                1.0 + 2.0 ** -52, 3.0, 1e10, -123.456,
+                # base-2 exponents at the one/two-octet boundaries of the exponent field
+                2.0 ** -128, 3 * 2.0 ** -128, 2.0 ** -129, 2.0 ** -127, 2.0 ** 127, 2.0 ** 128, -(2.0 ** 128), 2.0 ** -1000]
     if k == 'OBJECT IDENTIFIER':
         return [(0, 0), (1, 2, 3), (0, 39), (1, 39, 127, 128, 16383, 16384), (2, 48, 1 << 28), (2, 100, 3), (2, 999, (1 << 32) - 1)]
     if k == 'RELATIVE-OID':
